@@ -69,7 +69,8 @@ def _cases(args):
                     continue
                 valid = (ck is None or ck.lower() == true) and (sz is None or sz == len(data))
                 for prior in ("absent", "unreferenced", "referenced"):
-                    for entry in ("store", "store+same-additional", "store+other-additional", "dii", "store:gzip-stream"):
+                    for entry in ("store", "store+same-additional", "store+other-additional", "store+default-additional",
+                                  "store+storealgo-additional", "dii", "store:gzip-stream"):
                         if entry == "dii" and ck is None:
                             continue
                         if entry == "store:gzip-stream" and (prior != "absent" or sp != sps[0]):
@@ -87,6 +88,11 @@ def _cases(args):
                                     kw["additional_algorithm"] = sp
                                 elif entry == "store+other-additional":
                                     kw["additional_algorithm"] = "sha224" if algo != "sha224" else "sha3_256"
+                                elif entry == "store+default-additional":
+                                    # an additional algorithm that is one of the five defaults (DataONE spelling)
+                                    kw["additional_algorithm"] = "MD5" if algo != "md5" else "SHA-512"
+                                elif entry == "store+storealgo-additional":
+                                    kw["additional_algorithm"] = "SHA-256"  # the store's own algorithm
                                 if ck is not None:
                                     kw.update(checksum=ck, checksum_algorithm=sp)
                                 if sz is not None:
